@@ -52,6 +52,7 @@ const (
 // current multipart section. It also handles encoding, error tracking, and managing multipart and part
 // writers for constructing the email message body.
 type msgWriter struct {
+	boundaryUsed    bool
 	bytesWritten    int64
 	charset         Charset
 	depth           int8
@@ -100,6 +101,7 @@ func (mw *msgWriter) Write(payload []byte) (int, error) {
 //   - https://datatracker.ietf.org/doc/html/rfc2045 (Multipurpose Internet Mail Extensions - MIME)
 //   - https://datatracker.ietf.org/doc/html/rfc5322 (Internet Message Format)
 func (mw *msgWriter) writeMsg(msg *Msg) {
+	mw.boundaryUsed = false
 	msg.addDefaultHeader()
 	msg.checkUserAgent()
 	mw.writeGenHeader(msg)
@@ -297,9 +299,12 @@ func (mw *msgWriter) stopMP() {
 
 // getMultipartBoundary returns the appropriate multipart boundary for the given MIME type.
 //
-// If the Msg has a predefined boundary, it is returned. Otherwise, the function checks
-// for a MIME type-specific boundary in the Msg's multiPartBoundary map. If no boundary
-// is found, an empty string is returned.
+// If the Msg has a predefined boundary, it is returned for the outermost multipart level of
+// the render. A boundary can only delimit one level: nested levels must not reuse it, otherwise
+// the closing delimiter of the inner level also terminates the outer one. For those (and for
+// messages without a predefined boundary) the function checks for a MIME type-specific boundary
+// in the Msg's multiPartBoundary map. If no boundary is found, an empty string is returned and a
+// random boundary is generated (and remembered) by the caller.
 //
 // Parameters:
 //   - msg: A pointer to the Msg containing the boundary and MIME type-specific mappings.
@@ -308,11 +313,12 @@ func (mw *msgWriter) stopMP() {
 // Returns:
 //   - A string representing the multipart boundary, or an empty string if none is found.
 func (mw *msgWriter) getMultipartBoundary(msg *Msg, mimetype MIMEType) string {
-	if msg.boundary != "" {
+	if msg.boundary != "" && !mw.boundaryUsed {
+		mw.boundaryUsed = true
 		return msg.boundary
 	}
-	if msg.multiPartBoundary[mimetype] != "" {
-		return msg.multiPartBoundary[mimetype]
+	if boundary := msg.multiPartBoundary[mimetype]; boundary != "" && boundary != msg.boundary {
+		return boundary
 	}
 	return ""
 }
